@@ -130,12 +130,24 @@ def last_line(res, ln):
     l = res.get(ln, [])
     return l[-1] if l else None
 
+def used_part(line):
+    """for an `img` line of a SKINNY schedule: the round count, the slots that the round count covers and the
+    tweak (slots beyond the round count keep whatever the memory held before and are not part of the schedule)"""
+    if not line or not line.startswith("img "):
+        return line
+    t = line.split()
+    nbytes = len(t[2]) // 2
+    slot = {448: 8, 160: 4}.get(nbytes)
+    if slot is None:
+        return line
+    return " ".join([t[0], t[1], t[2][: 2 * slot * min(int(t[1]), nbytes // slot)]] + t[3:])
+
 def apply_meta(run, title, variant, script, res, meta):
     """property-level oracles described by the generator"""
     for m in meta:
         run.stats["oracle_checks"] += 1
         if m[0] == "same":
-            if last_line(res, m[1]) != last_line(res, m[2]):
+            if used_part(last_line(res, m[1])) != used_part(last_line(res, m[2])):
                 run.oracle_fail(title, variant, script, "results of lines %d and %d must be identical: `%s` vs `%s`" % (
                     m[1], m[2], str(last_line(res, m[1]))[:120], str(last_line(res, m[2]))[:120]), [m[1], m[2]])
         elif m[0] == "stream":
